@@ -8,10 +8,13 @@ KTrav  == {"bfs", "ring", "local", "defs"}
 KDefs  == {"defs"}
 KBfs   == {"bfs"}
 KMatch == {"match"}
+KHist  == {"match", "bfs"}
 NoPat  == {}
 (* connected patterns on 1..3 atoms, elements incl. the wildcard *)
 Connected(G) == ReachDecl(AdjOf(G), 1, {}) = Nodes(G)
 Pat3   == {P \in AllGraphs(3, ElPat) : Connected(P)}
+(* patterns on 1..2 atoms for the history model *)
+Pat2   == {P \in AllGraphs(2, ElPat) : Connected(P)}
 (* connected patterns on 1..4 atoms over {C, Unknown} *)
 Pat4   == {P \in AllGraphs(4, {"C", "Unknown"}) : Connected(P)}
 DevNone      == {}
@@ -23,5 +26,7 @@ DevRing      == {"RingThroughBond"}
 DevValence   == {"ValenceCountsBonds"}
 DevNonInduced == {"NonInducedMatch"}
 DevWildcard  == {"WildcardIgnored"}
+DevStaleAttr == {"StaleAttributes"}
+DevStaleAdj  == {"StaleAdjacency"}
 View == sv
 =============================================================================
